@@ -5,7 +5,7 @@ From Coq Require Import List NArith Bool.
 Import ListNotations.
 Local Open Scope N_scope.
 
-Definition byte := N.
+Notation byte := N (only parsing).
 Definition bufid := N.
 
 (* One heap allocation made by Buf32::with_capacity.
